@@ -276,6 +276,10 @@ def limit_size(cx):
     early = any(any(l[0] == "is" and l[2] is False and l[1][0] == "bin" and l[1][1] == "Lt" and l[1][2] == ("int", 1) for l in lits) for lits, v, _ in rets)
     cx.check(early, "keep-one", "a vector of at most one entry is never truncated")
     clos = [sp for sp, s in cx.prog.calls_out[f.key] if s.kind == "closure"]
+    # only a closure handed to take_while is the limiter (an `Option::filter(|m| m != NO_LIMIT)` is not)
+    tw_args = [x for c in cx.prog.all_calls if c.fn is f and c.data["callee"].endswith("::take_while") for a_ in call_args(cx, c) for x in walk(a_) if x[0] == "closure"]
+    if tw_args or not any(c.fn is f and c.data["callee"].endswith("::take_while") for c in cx.prog.all_calls):
+        clos = [sp for sp in clos if any(strip_generics(x[1]) == strip_generics(sp) or x[1] == sp for x in tw_args)]
     if not clos:
         # second form: an explicit loop with a kept-counter and a running byte size,
         #   for e in entries { let first = size == 0; size += e.compute_size(); if !first && size > max { break } kept += 1 }
